@@ -24,7 +24,7 @@ pub fn def() -> CheckDef {
         },
         gen,
         run,
-        rule: "one case = one valid base image (drawn history through the library, or a drawn layout by the independent writer; the first case of a run is a V3 file with > 109 FAT sectors so that DIFAT-sector deviations apply) and (b) the ENUMERATION of every documented tolerated deviation at every applicable place (zero-padded FAT tail; zero-padded DIFAT tail; each FAT / DIFAT sector not marked; DIFAT chain ended by FREESECT; every parent/child pair red-red; every name unterminated; wrong root name; CLSID / creation / modification time on every stream; start sector / size on every storage; FAT / DIFAT / MiniFAT sector counts off by one; non-zero directory-sector count in V3; MiniFAT longer than the mini stream), singly and in drawn combinations of 2-3: permissive open must accept with the SAME logical dump as the undamaged base and strict open must reject; (a) for the whole corpus - base, deviated images, a sample of C05's damaged images, and (cases 1..300 in quick) 40 small foreign layouts each from the independent writer - whenever open_strict accepts, open accepts too and both dumps are identical. sub_runs = images judged. Non-trivial: >= 1 deviation applied; distinct = distinct image hashes.",
+        rule: "one case = one valid base image (drawn history through the library, or a drawn layout by the independent writer; the first case of a run is a V3 file with > 109 FAT sectors so that DIFAT-sector deviations apply) and (b) the ENUMERATION of every documented tolerated deviation at every applicable place (zero-padded FAT tail; zero-padded DIFAT tail; each FAT / DIFAT sector not marked; DIFAT chain ended by FREESECT; every parent/child pair red-red; every name unterminated; wrong root name; CLSID / creation / modification time on every stream; start sector / size on every storage; FAT / DIFAT / MiniFAT sector counts off by one; non-zero directory-sector count in V3; MiniFAT longer than the mini stream), singly and in drawn combinations of 2-3: permissive open must accept with the SAME logical dump as the undamaged base and strict open must reject - through open_with on the simulated disk for every image, and through the path-based constructors OpenOptions::[strict().]open(path) / open_rw(path) on a real scratch file for the first image of every recipe and every 8th combination; (a) for the whole corpus - base, deviated images, a sample of C05's damaged images, and (cases 1..300 in quick) 40 small foreign layouts each from the independent writer - whenever open_strict accepts, open accepts too and both dumps are identical. sub_runs = images judged. Non-trivial: >= 1 deviation applied; distinct = distinct image hashes.",
         assumptions: &["the base image must itself pass open_strict; otherwise the case is skipped and counted (that is C02/C03/C04's subject)"],
         cpu_limit_s: 240,
         fault_kinds: "F-FC deviation recipes (enumerated at every place, and combined), plus a sample of C05 damage for clause (a)",
@@ -221,6 +221,48 @@ fn run_inner(case: &Case, _known: &BTreeSet<String>) -> Outcome {
     let only = case.param("only_deviation", -1);
     let mut hashes: BTreeSet<u64> = BTreeSet::new();
     let mut judged = 0u64;
+    let mut path_done: BTreeSet<&'static str> = BTreeSet::new();
+    // the path-based constructors on a real file holding the same bytes must give the same
+    // verdicts (first image of every recipe, every 8th combination; small images only)
+    let scratch = match crate::pathapi::Scratch::new("c16") {
+        Ok(s) => s,
+        Err(e) => {
+            o.harness_error = Some(e);
+            return o;
+        }
+    };
+    let path_parity = |o: &mut Outcome, img: &[u8], desc: &str, site: &str, strict_rejects: bool| -> bool {
+        let path = match scratch.put("f.cfb", img) {
+            Ok(p) => p,
+            Err(e) => {
+                o.harness_error = Some(e);
+                return false;
+            }
+        };
+        o.stats.probe("path_api_images");
+        for rw in [false, true] {
+            let api = if rw { "open_rw(path)" } else { "open(path)" };
+            match crate::pathapi::open_path(&path, false, rw, None) {
+                Ok(seen) => {
+                    if let Some(diff) = dump::diff(&seen.dump, &base_dump) {
+                        o.violations.push(Violation { property: "C16".into(), rule: "deviation.path-content-differs".into(), site: site.into(), msg: format!("[{}] OpenOptions::new().{} on a real file accepts but exposes different content than the undamaged file: {}", desc, api, diff), step: 0 });
+                        return false;
+                    }
+                }
+                Err(r) => {
+                    o.violations.push(Violation { property: "C16".into(), rule: "deviation.path-permissive-rejects".into(), site: site.into(), msg: format!("[{}] OpenOptions::new().{} on a real file rejects a documented tolerated deviation that open_with accepts: {}", desc, api, r.brief()), step: 0 });
+                    return false;
+                }
+            }
+            if strict_rejects {
+                if crate::pathapi::open_path(&path, true, rw, None).is_ok() {
+                    o.violations.push(Violation { property: "C16".into(), rule: "deviation.path-strict-accepts".into(), site: site.into(), msg: format!("[{}] OpenOptions::new().strict().{} on a real file accepts a file that strict open_with rejects", desc, api), step: 0 });
+                    return false;
+                }
+            }
+        }
+        true
+    };
     let judge = |o: &mut Outcome, img: &[u8], desc: &str, site: &str, strict_rejects: bool| -> bool {
         // permissive: accept, same content
         match open_and_dump(img, false) {
@@ -258,7 +300,10 @@ fn run_inner(case: &Case, _known: &BTreeSet<String>) -> Outcome {
             o.stats.sub_runs += 2;
             o.stats.boundary_checks += 1;
             *o.stats.faults_fired.entry(format!("F-FC:{}", d.recipe)).or_insert(0) += 1;
-            if !judge(&mut o, &img, &format!("{} @ {}", d.recipe, d.place), d.recipe, d.strict_rejects) {
+            let with_path = img.len() <= (1 << 20) && path_done.insert(d.recipe);
+            if !judge(&mut o, &img, &format!("{} @ {}", d.recipe, d.place), d.recipe, d.strict_rejects)
+                || (with_path && !path_parity(&mut o, &img, &format!("{} @ {}", d.recipe, d.place), d.recipe, d.strict_rejects))
+            {
                 let mut rc = case.clone();
                 rc.params.insert("only_deviation".into(), i as i64);
                 o.replay_case = Some(rc);
@@ -302,7 +347,10 @@ fn run_inner(case: &Case, _known: &BTreeSet<String>) -> Outcome {
             *o.stats.faults_fired.entry("F-FC:combination".into()).or_insert(0) += 1;
             let mut recipes: Vec<&str> = pick.iter().map(|p| devs[*p].recipe).collect();
             recipes.sort();
-            if !judge(&mut o, &img, desc.trim_end_matches(" + "), &recipes.join("+"), true) {
+            let with_path = img.len() <= (1 << 20) && ci % 8 == 0;
+            if !judge(&mut o, &img, desc.trim_end_matches(" + "), &recipes.join("+"), true)
+                || (with_path && !path_parity(&mut o, &img, desc.trim_end_matches(" + "), &recipes.join("+"), true))
+            {
                 let mut rc = case.clone();
                 rc.params.insert("only_combo".into(), ci as i64);
                 rc.params.insert("only_deviation".into(), -2);
